@@ -229,8 +229,68 @@ theorem readCqlBytes_ok_nonempty (bs : Bytes) (r : Option Bytes × Bytes) (h : r
   | nil => simp [readCqlBytes] at h
   | cons a l => rfl
 
+/-! ### canonical content is a fixed point of `collect` -/
+
+theorem pairwiseLt_cross : ∀ (a b : List RustVal), pairwiseLt (a ++ b) = true →
+    ∀ y, y ∈ a → ∀ z, z ∈ b → rvCmp y z = .lt
+  | [], _, _, y, hy, _, _ => by cases hy
+  | x :: a, b, h, y, hy, z, hz => by
+    simp only [List.cons_append, pairwiseLt, Bool.and_eq_true, List.all_eq_true, beq_iff_eq] at h
+    cases hy with
+    | head => exact h.1 z (List.mem_append_right _ hz)
+    | tail _ hy' => exact pairwiseLt_cross a b h.2 y hy' z hz
+
+theorem insertSet_append (x : RustVal) : ∀ ys : List RustVal, (∀ y, y ∈ ys → rvCmp y x = .lt) →
+    insertSet x ys = ys ++ [x]
+  | [], _ => rfl
+  | y :: ys, h => by
+    simp only [insertSet, h y List.mem_cons_self, List.cons_append,
+      insertSet_append x ys (fun z hz => h z (List.mem_cons_of_mem _ hz))]
+
+theorem collectSet_canon_aux : ∀ (xs acc : List RustVal), pairwiseLt (acc ++ xs) = true →
+    xs.foldl (fun a x => insertSet x a) acc = acc ++ xs
+  | [], acc, _ => by simp
+  | x :: xs, acc, h => by
+    have hlt : ∀ y, y ∈ acc → rvCmp y x = .lt := fun y hy => pairwiseLt_cross acc (x :: xs) h y hy x List.mem_cons_self
+    simp only [List.foldl_cons, insertSet_append x acc hlt]
+    have h' : pairwiseLt ((acc ++ [x]) ++ xs) = true := by simpa [List.append_assoc] using h
+    rw [collectSet_canon_aux xs (acc ++ [x]) h']
+    simp [List.append_assoc]
+
+theorem collectSet_canon (xs : List RustVal) (h : pairwiseLt xs = true) : collectSet xs = xs := by
+  have := collectSet_canon_aux xs [] (by simpa using h)
+  simpa [collectSet] using this
+
+theorem insertMap_append (kv : RustVal × RustVal) : ∀ es : List (RustVal × RustVal),
+    (∀ e, e ∈ es → rvCmp e.1 kv.1 = .lt) → insertMap kv es = es ++ [kv]
+  | [], _ => rfl
+  | e :: es, h => by
+    simp only [insertMap, h e List.mem_cons_self, List.cons_append,
+      insertMap_append kv es (fun z hz => h z (List.mem_cons_of_mem _ hz))]
+
+theorem collectMap_canon_aux : ∀ (kvs acc : List (RustVal × RustVal)),
+    pairwiseLt ((acc ++ kvs).map (·.1)) = true →
+    kvs.foldl (fun a kv => insertMap kv a) acc = acc ++ kvs
+  | [], acc, _ => by simp
+  | kv :: kvs, acc, h => by
+    have hlt : ∀ e, e ∈ acc → rvCmp e.1 kv.1 = .lt := by
+      intro e he
+      rw [List.map_append] at h
+      exact pairwiseLt_cross (acc.map (·.1)) ((kv :: kvs).map (·.1)) h e.1 (List.mem_map_of_mem he) kv.1
+        (by simp)
+    simp only [List.foldl_cons, insertMap_append kv acc hlt]
+    have h' : pairwiseLt (((acc ++ [kv]) ++ kvs).map (·.1)) = true := by simpa [List.append_assoc] using h
+    rw [collectMap_canon_aux kvs (acc ++ [kv]) h']
+    simp [List.append_assoc]
+
+theorem collectMap_canon (kvs : List (RustVal × RustVal)) (h : pairwiseLt (kvs.map (·.1)) = true) :
+    collectMap kvs = kvs := by
+  have := collectMap_canon_aux kvs [] (by simpa using h)
+  simpa [collectMap] using this
+
 /-- list / set columns (for `Vec` and the set carriers). -/
 theorem seq_body_rt (u : Bytes → Bool) (c : Carrier) (e : CqlTy) (xs : List RustVal) (body : Bytes)
+    (post : List RustVal → List RustVal) (hpost : post xs = xs)
     (hitem : ∀ y, y ∈ xs → ∀ cell, encSpec e (embed c y) true = .ok cell →
       ItemRT (fun o => deserCarrier u c e o) cell y)
     (hb : (if (xs.map (fun y => embed c y)).length > i32Max then (.error .tooManyElements : Except SerErr Bytes)
@@ -242,7 +302,7 @@ theorem seq_body_rt (u : Bytes → Bool) (c : Carrier) (e : CqlTy) (xs : List Ru
      | .ok (n, rest) =>
        match seqG (fun o => deserCarrier u c e o) n rest with
        | .error er => .error er
-       | .ok ys => .ok (.seq ys)) = .ok (.seq xs) := by
+       | .ok ys => .ok (.seq (post ys))) = .ok (.seq xs) := by
   simp only [List.length_map, concatEnc_map] at hb
   split at hb
   · cases hb
@@ -256,7 +316,7 @@ theorem seq_body_rt (u : Bytes → Bool) (c : Carrier) (e : CqlTy) (xs : List Ru
       rw [readCount_be32 _ _ (by omega)]
       have := seqG_rt (fun o => deserCarrier u c e o) (fun y => encSpec e (embed c y) true) xs cells [] hitem hc
       rw [List.append_nil] at this
-      simp only [this]
+      simp only [this, hpost]
 
 mutual
 theorem trt (u : Bytes → Bool) : ∀ c : Carrier, TRT u c
@@ -339,7 +399,7 @@ theorem trt (u : Bytes → Bool) : ∀ c : Carrier, TRT u c
       rw [encSpec] at hb
       simp only [viewOf] at hb
       simp only [deserCarrier]
-      exact seq_body_rt u c e xs body
+      exact seq_body_rt u c e xs body (fun ys => ys) rfl
         (fun y hy cell hc => item_of_trt u c e y (trt u c e y (hwt y hy) htc (hrt y hy)) cell hc) hb
     | set e =>
       simp only [tcheck] at htc
@@ -350,7 +410,7 @@ theorem trt (u : Bytes → Bool) : ∀ c : Carrier, TRT u c
       rw [encSpec] at hb
       simp only [viewOf] at hb
       simp only [deserCarrier]
-      exact seq_body_rt u c e xs body
+      exact seq_body_rt u c e xs body (fun ys => ys) rfl
         (fun y hy cell hc => item_of_trt u c e y (trt u c e y (hwt y hy) htc (hrt y hy)) cell hc) hb
     | vector e dim =>
       simp only [tcheck] at htc
@@ -405,15 +465,15 @@ theorem trt (u : Bytes → Bool) : ∀ c : Carrier, TRT u c
     cases t with
     | set e =>
       simp only [tcheck] at htc
-      simp only [rtOk, List.all_eq_true] at hrt
+      simp only [rtOk, Bool.and_eq_true, List.all_eq_true] at hrt
       refine ⟨by simp [embed], fun h => by simp [embed] at h, ?_⟩
       intro body hb _
       simp only [embed] at hb
       rw [encSpec] at hb
       simp only [viewOf] at hb
       simp only [deserCarrier]
-      exact seq_body_rt u c e xs body
-        (fun y hy cell hc => item_of_trt u c e y (trt u c e y (hwt y hy) htc (hrt y hy)) cell hc) hb
+      exact seq_body_rt u c e xs body collectSet (collectSet_canon xs hrt.2)
+        (fun y hy cell hc => item_of_trt u c e y (trt u c e y (hwt y hy) htc (hrt.1 y hy)) cell hc) hb
     | native n => simp [tcheck] at htc
     | list e => simp [tcheck] at htc
     | vector e d => simp [tcheck] at htc
@@ -428,6 +488,7 @@ theorem trt (u : Bytes → Bool) : ∀ c : Carrier, TRT u c
     | map kt vt =>
       simp only [tcheck, Bool.and_eq_true] at htc
       simp only [rtOk, List.all_eq_true, Bool.and_eq_true] at hrt
+      obtain ⟨hrt, hcanon⟩ := hrt
       refine ⟨by simp [embed], fun h => by simp [embed] at h, ?_⟩
       intro body hb _
       simp only [embed] at hb
@@ -454,7 +515,7 @@ theorem trt (u : Bytes → Bool) : ∀ c : Carrier, TRT u c
                fun cell hcell => item_of_trt u v vt kv.2
                   (trt u v vt kv.2 (hwt kv.1 kv.2 hkv).2 htc.2 (hrt kv hkv).2) cell hcell⟩) hc
           rw [List.append_nil] at this
-          simp only [this]
+          simp only [this, collectMap_canon kvs hcanon]
     | native n => simp [tcheck] at htc
     | list e => simp [tcheck] at htc
     | set e => simp [tcheck] at htc
